@@ -146,3 +146,91 @@ def memo_inplace(db, module_names):
                     if isinstance(base, ast.Name) and base.id in tainted:
                         found.append((fi, st, tainted[base.id]))
     return found
+
+
+def _names_load(node):
+    return {n.id for n in ast.walk(node) if isinstance(n, ast.Name) and isinstance(n.ctx, ast.Load)}
+
+
+def memo_completeness(db, module_names):
+    """Module-level dict memos: every input the fill block reads must be represented in the key.
+
+    Returns [(fi, store stmt, memo name, missing names)] for fills of the form
+        if key not in MEMO: ... MEMO[key] = value        (or try: MEMO[key] except KeyError: ... MEMO[key] = value)
+    """
+    import builtins
+    out = []
+    for mn in module_names:
+        mod = db.module(mn)
+        memos = {name for name, e in mod.assigns.items() if (isinstance(e, ast.Dict) and not e.keys) or (isinstance(e, ast.Call) and ast.unparse(e.func) in ('dict', 'OrderedDict', 'collections.OrderedDict'))}
+        if not memos:
+            continue
+        module_level = set(mod.assigns) | set(mod.functions) | set(mod.classes) | set(mod.imports)
+        fns = list(mod.functions.values()) + [m for c in mod.classes.values() for m in c.methods.values()]
+        for fi in fns:
+            params = set(fi.params) | {a.arg for a in fi.node.args.kwonlyargs}
+            local_defs = {}
+            for n in walk_no_nested(fi.node):
+                if isinstance(n, ast.Assign):
+                    for t in n.targets:
+                        for x in ast.walk(t):
+                            if isinstance(x, ast.Name) and isinstance(x.ctx, ast.Store):
+                                local_defs.setdefault(x.id, []).append(n)
+            for n in walk_no_nested(fi.node):
+                block = None
+                keyexpr = None
+                memo = None
+                if isinstance(n, ast.If) and isinstance(n.test, ast.Compare) and len(n.test.ops) == 1 and isinstance(n.test.ops[0], ast.NotIn) \
+                        and isinstance(n.test.comparators[0], ast.Name) and n.test.comparators[0].id in memos:
+                    block, keyexpr, memo = n.body, n.test.left, n.test.comparators[0].id
+                elif isinstance(n, ast.Try) and n.handlers and any(isinstance(s, ast.Subscript) and isinstance(s.value, ast.Name) and s.value.id in memos for st in n.body for s in ast.walk(st)):
+                    for st in n.body:
+                        for s in ast.walk(st):
+                            if isinstance(s, ast.Subscript) and isinstance(s.value, ast.Name) and s.value.id in memos:
+                                memo, keyexpr = s.value.id, s.slice
+                    block = n.handlers[0].body
+                if block is None:
+                    continue
+                stores = [st for st in block for s in ast.walk(st) if isinstance(st, ast.Assign) and isinstance(s, ast.Subscript) and isinstance(s.ctx, ast.Store)
+                          and isinstance(s.value, ast.Name) and s.value.id == memo]
+                if not stores:
+                    continue
+                # closure of the key over local definitions made OUTSIDE the fill block
+                covered = set(_names_load(keyexpr))
+                work = list(covered)
+                blockset = {id(x) for st in block for x in ast.walk(st)}
+                while work:
+                    nm = work.pop()
+                    for d in local_defs.get(nm, []):
+                        if id(d) in blockset:
+                            continue
+                        for y in _names_load(d.value):
+                            if y not in covered:
+                                covered.add(y)
+                                work.append(y)
+                assigned_in_block = {x.id for st in block for x in ast.walk(st) if isinstance(x, ast.Name) and isinstance(x.ctx, ast.Store)}
+                reads = set()
+                for st in block:
+                    reads |= _names_load(st)
+                missing = set()
+                for nm in reads:
+                    if nm in covered or nm in assigned_in_block or nm in module_level or hasattr(builtins, nm) or nm == 'self':
+                        continue
+                    # a local defined outside the block: trace to parameters
+                    srcs = {nm}
+                    seen = set()
+                    while srcs:
+                        z = srcs.pop()
+                        if z in seen:
+                            continue
+                        seen.add(z)
+                        if z in params and z not in covered:
+                            missing.add(z)
+                        for d in local_defs.get(z, []):
+                            if id(d) not in blockset:
+                                srcs |= (_names_load(d.value) - covered)
+                if missing:
+                    out.append((fi, stores[0], memo, sorted(missing)))
+                else:
+                    out.append((fi, stores[0], memo, []))
+    return out
